@@ -185,6 +185,24 @@ func c13hTry(phase string, req int, f func()) (c *c13hCrash) {
 	return nil
 }
 
+// c13hCollector: a local zipkin collector that answers 202 at once. The generated `serverURL`s point at a
+// refusing port; before the document is handed to validation they are redirected here (both are well-formed
+// URLs, which is all validation and the model look at), so that the zipkin HTTP reporter never waits on the
+// network when it flushes at reload / close.
+var c13hCollector = httptest.NewServer(http.HandlerFunc(func(w http.ResponseWriter, r *http.Request) {
+	w.WriteHeader(http.StatusAccepted)
+}))
+
+func c13hRedirect(tr interface{}) {
+	if t, ok := tr.(map[string]interface{}); ok {
+		if z, ok := t["zipkin"].(map[string]interface{}); ok {
+			if u, ok := z["serverURL"].(string); ok && strings.HasPrefix(u, "http://127.0.0.1:1") {
+				z["serverURL"] = c13hCollector.URL + strings.TrimPrefix(u, "http://127.0.0.1:1")
+			}
+		}
+	}
+}
+
 type c13hHandler struct{}
 
 // c13hFailReader: a response payload whose source fails (only when the request asks for it).
@@ -250,6 +268,7 @@ func c13hExec(raw json.RawMessage) interface{} {
 	for k, v := range in.Spec {
 		doc[k] = c13hNum(v)
 	}
+	c13hRedirect(doc["tracing"])
 	buf, err := yaml.Marshal(doc)
 	if err != nil {
 		obs.Err = "yaml-marshal"
@@ -339,6 +358,7 @@ func c13hExec(raw json.RawMessage) interface{} {
 			delete(doc2, "tracing")
 		} else {
 			doc2["tracing"] = c13hNum(in.Tracing2)
+			c13hRedirect(doc2["tracing"])
 		}
 		if b, err := yaml.Marshal(doc2); err == nil {
 			buf2 = b
